@@ -24,6 +24,10 @@ theorem sde_scalar (enc : Enc) : ∀ (ty : Ty), Ty.isScalarTy ty = true → ∀ 
   | .i64, _, f + 1, _, tok, s, ht, o, rest => by rcases ht with rfl | rfl <;> stream_leaf
   | .u64, _, f + 1, _, tok, s, ht, o, rest => by rcases ht with rfl | rfl <;> stream_leaf
   | .i32, _, f + 1, _, tok, s, ht, o, rest => by rcases ht with rfl | rfl <;> stream_leaf
+  | .i16, _, f + 1, _, tok, s, ht, o, rest => by rcases ht with rfl | rfl <;> stream_leaf
+  | .u16, _, f + 1, _, tok, s, ht, o, rest => by rcases ht with rfl | rfl <;> stream_leaf
+  | .i8, _, f + 1, _, tok, s, ht, o, rest => by rcases ht with rfl | rfl <;> stream_leaf
+  | .u8, _, f + 1, _, tok, s, ht, o, rest => by rcases ht with rfl | rfl <;> stream_leaf
   | .u32, _, f + 1, _, tok, s, ht, o, rest => by rcases ht with rfl | rfl <;> stream_leaf
   | .f64, _, f + 1, _, tok, s, ht, o, rest => by rcases ht with rfl | rfl <;> stream_leaf
   | .f32, _, f + 1, _, tok, s, ht, o, rest => by rcases ht with rfl | rfl <;> stream_leaf
@@ -56,6 +60,10 @@ theorem sde_field (enc : Enc) : ∀ (ty : Ty), Ty.isFieldScalarTy ty = true → 
   | .i64, h, f, hf, tok, s, ht, o, rest => by simpa [valueOfField] using sde_scalar enc .i64 rfl f hf tok s ht o rest
   | .u64, h, f, hf, tok, s, ht, o, rest => by simpa [valueOfField] using sde_scalar enc .u64 rfl f hf tok s ht o rest
   | .i32, h, f, hf, tok, s, ht, o, rest => by simpa [valueOfField] using sde_scalar enc .i32 rfl f hf tok s ht o rest
+  | .i16, h, f, hf, tok, s, ht, o, rest => by simpa [valueOfField] using sde_scalar enc .i16 rfl f hf tok s ht o rest
+  | .u16, h, f, hf, tok, s, ht, o, rest => by simpa [valueOfField] using sde_scalar enc .u16 rfl f hf tok s ht o rest
+  | .i8, h, f, hf, tok, s, ht, o, rest => by simpa [valueOfField] using sde_scalar enc .i8 rfl f hf tok s ht o rest
+  | .u8, h, f, hf, tok, s, ht, o, rest => by simpa [valueOfField] using sde_scalar enc .u8 rfl f hf tok s ht o rest
   | .u32, h, f, hf, tok, s, ht, o, rest => by simpa [valueOfField] using sde_scalar enc .u32 rfl f hf tok s ht o rest
   | .f64, h, f, hf, tok, s, ht, o, rest => by simpa [valueOfField] using sde_scalar enc .f64 rfl f hf tok s ht o rest
   | .f32, h, f, hf, tok, s, ht, o, rest => by simpa [valueOfField] using sde_scalar enc .f32 rfl f hf tok s ht o rest
@@ -77,6 +85,10 @@ theorem tde_scalar (enc : Enc) (toks : List TTok) (i : Nat) (s : Bytes)
   | .i64, _, f + 1, _, vk, hv => by rcases hv with ⟨o, rfl⟩ | rfl <;> rcases hq with h | h <;> tape_leaf h
   | .u64, _, f + 1, _, vk, hv => by rcases hv with ⟨o, rfl⟩ | rfl <;> rcases hq with h | h <;> tape_leaf h
   | .i32, _, f + 1, _, vk, hv => by rcases hv with ⟨o, rfl⟩ | rfl <;> rcases hq with h | h <;> tape_leaf h
+  | .i16, _, f + 1, _, vk, hv => by rcases hv with ⟨o, rfl⟩ | rfl <;> rcases hq with h | h <;> tape_leaf h
+  | .u16, _, f + 1, _, vk, hv => by rcases hv with ⟨o, rfl⟩ | rfl <;> rcases hq with h | h <;> tape_leaf h
+  | .i8, _, f + 1, _, vk, hv => by rcases hv with ⟨o, rfl⟩ | rfl <;> rcases hq with h | h <;> tape_leaf h
+  | .u8, _, f + 1, _, vk, hv => by rcases hv with ⟨o, rfl⟩ | rfl <;> rcases hq with h | h <;> tape_leaf h
   | .u32, _, f + 1, _, vk, hv => by rcases hv with ⟨o, rfl⟩ | rfl <;> rcases hq with h | h <;> tape_leaf h
   | .f64, _, f + 1, _, vk, hv => by rcases hv with ⟨o, rfl⟩ | rfl <;> rcases hq with h | h <;> tape_leaf h
   | .f32, _, f + 1, _, vk, hv => by rcases hv with ⟨o, rfl⟩ | rfl <;> rcases hq with h | h <;> tape_leaf h
@@ -110,6 +122,10 @@ theorem tde_field (enc : Enc) (toks : List TTok) (i : Nat) (s : Bytes)
   | .i64, h, f, hf => by simpa [valueOfField] using tde_scalar enc toks i s hq .i64 rfl f hf _ (Or.inl ⟨o, rfl⟩)
   | .u64, h, f, hf => by simpa [valueOfField] using tde_scalar enc toks i s hq .u64 rfl f hf _ (Or.inl ⟨o, rfl⟩)
   | .i32, h, f, hf => by simpa [valueOfField] using tde_scalar enc toks i s hq .i32 rfl f hf _ (Or.inl ⟨o, rfl⟩)
+  | .i16, h, f, hf => by simpa [valueOfField] using tde_scalar enc toks i s hq .i16 rfl f hf _ (Or.inl ⟨o, rfl⟩)
+  | .u16, h, f, hf => by simpa [valueOfField] using tde_scalar enc toks i s hq .u16 rfl f hf _ (Or.inl ⟨o, rfl⟩)
+  | .i8, h, f, hf => by simpa [valueOfField] using tde_scalar enc toks i s hq .i8 rfl f hf _ (Or.inl ⟨o, rfl⟩)
+  | .u8, h, f, hf => by simpa [valueOfField] using tde_scalar enc toks i s hq .u8 rfl f hf _ (Or.inl ⟨o, rfl⟩)
   | .u32, h, f, hf => by simpa [valueOfField] using tde_scalar enc toks i s hq .u32 rfl f hf _ (Or.inl ⟨o, rfl⟩)
   | .f64, h, f, hf => by simpa [valueOfField] using tde_scalar enc toks i s hq .f64 rfl f hf _ (Or.inl ⟨o, rfl⟩)
   | .f32, h, f, hf => by simpa [valueOfField] using tde_scalar enc toks i s hq .f32 rfl f hf _ (Or.inl ⟨o, rfl⟩)
